@@ -575,6 +575,10 @@ def gen_frame0(rng, w):
     tags.append('proto:%d' % proto)
     l4 = gen_l4(rng, w, v6, proto)
     src = rng.choice([None, None, None, None, w.bad6 if v6 else w.bad4])
+    src_self = None
+    if rng.chance(1, 16):
+        # the source is itself a handled address (the second one, or the very address the packet is sent to)
+        src_self = rng.choice([w.my6b, w.my6] if v6 else [w.my4b, w.my4])
     dst = rng.choice([None, None, None, None, w.other6 if v6 else w.other4, w.my6b if v6 else w.my4b])
     group = None
     if rng.chance(1, 12):
@@ -588,6 +592,9 @@ def gen_frame0(rng, w):
         dst = group
     if src is not None:
         tags.append('src-denied')
+    elif src_self is not None:
+        src = src_self
+        tags.append('src-self')
     if group is not None:
         tags.append('dst-group')
     elif dst is not None:
